@@ -3,8 +3,11 @@ import gen
 
 ID = "C01"
 LEVEL = "proof"
-MODULES = ["H3Proofs.Props.C01", "H3Proofs.Props.C05Valid2", "H3Proofs.Props.C02Valid", "H3Proofs.Props.C09Valid", "H3Proofs.Props.C10Valid", "H3Proofs.Props.C05All"]
+MODULES = ["H3Proofs.Props.C01", "H3Proofs.Props.C01Lnz", "H3Proofs.Props.C01Rot", "H3Proofs.Props.C05Valid2", "H3Proofs.Props.C02Valid", "H3Proofs.Props.C09Valid", "H3Proofs.Props.C10Valid", "H3Proofs.Props.C05All"]
 THEOREMS = ["H3.C01.isValidCell_eq_layout", "H3.C01.isValidCell_defined_all", "H3.C01.pentBC_eq_table",
+            "H3.C01L.h3LeadingNonZeroDigit_defined_all", "H3.C01L.h3LeadingNonZeroDigit_eq_model",
+            "H3.C01R.h3Rotate60ccw_defined_all", "H3.C01R.h3Rotate60cw_defined_all",
+            "H3.C01R.h3Rotate60ccw_eq_model", "H3.C01R.h3Rotate60cw_eq_model",
             "H3.C05V.h3NeighborRotations_layout", "H3.C05V.walk_valid", "H3.C02V.faceIjkToH3_valid",
             "H3.C09V.localIjToCell_valid", "H3.C09V.gridPathCells_valid", "H3.C10V.edge_cells_valid",
             "H3.C05R.gridDiskDistancesUnsafe_valid", "H3.C05R.gridRingUnsafe_valid", "H3.C05All.gridDiskDistances_valid"]
@@ -16,7 +19,11 @@ NOT_PROVED = ["closure clause: a theorem for every cell-returning function of th
               "fills return cells of the resolution's enumeration (C07Iter.polyfill_mem); in addition the closure sweep passes "
               "every cell those API calls return on the real library through the documented layout (runtime monitor)"]
 ASSUMPTIONS = ["Gen.Bits.isValidCell is the c2lean translation of the C text (validated differentially here, "
-               "helper by helper)", "bv_decide's LRAT checker (one native axiom per bv_decide theorem)"]
+               "helper by helper)",
+               "_h3LeadingNonZeroDigit, _h3Rotate60ccw, _h3Rotate60cw (and _rotate60ccw/_rotate60cw) are translated from the C "
+               "text on every run with their loops unrolled sixteen times and PROVED equal to the hand-written model functions "
+               "for all 2^64 values (C01Lnz, C01Rot): these three model functions are tied to the code by translation, not "
+               "only by correspondence", "bv_decide's LRAT checker (one native axiom per bv_decide theorem)"]
 EXPLANATION = ("isValidCell generated from C equals the hand-written documentation-level layoutSpec for all 2^64 "
                "values (bv_decide); correspondence validates the translator on structured and malformed indexes")
 RULE = ("structured: every res x base-cell class x digit pattern, each with every single bit flipped; malformed "
@@ -48,7 +55,7 @@ def _values(rng, tier):
 def streams(rng, tier):
     vals = _values(rng, tier)
     ops = ["valid " + gen.hx(h) for h in vals]
-    ops2 = ["vparts " + gen.hx(h) for h in vals[::3]]
+    ops2 = ["vparts " + gen.hx(h) for h in vals[::3]] + ["genfn " + gen.hx(h) for h in vals[::5]]
     ops3 = []
     for h in vals[::11]:
         ops3.append(f"mac {gen.hx(h)} {rng.randrange(1, 16)} {rng.randrange(8)} {rng.randrange(256)}")
